@@ -151,9 +151,13 @@ func (c *UnitCase) run() {
 		d := dumpCtx(ctx, c.Ctx.Inv)
 		c.Ctx = &d
 		cl := c.Clause.build()
-		if c.Flag != nil && c.Flag.Form == "pre" { // reuse Form as "preprocess this clause"
+		if c.Flag != nil && (c.Flag.Form == "pre" || c.Flag.Form == "repre") { // reuse Form as "preprocess this clause"
 			f := ldmodel.FeatureFlag{Rules: []ldmodel.FlagRule{{Clauses: []ldmodel.Clause{cl}}}}
-			ldmodel.PreprocessFlag(&f)
+			if c.Flag.Form == "repre" {
+				rePreprocessFlag(&f) // preprocessed with other operands first, then with these
+			} else {
+				ldmodel.PreprocessFlag(&f)
+			}
 			cl = f.Rules[0].Clauses[0]
 		}
 		dc := dumpClause(&cl)
